@@ -1,9 +1,11 @@
 #!/bin/bash
-# usage: ./seedregress_par.sh [tier] - seedregress.sh over all kept seeds, in four groups side by side (by property number)
+# usage: [NG=4] ./seedregress_par.sh [tier] - seedregress.sh over all kept seeds, in NG groups side by side (by property number)
 tier=${1:-quick}
+ng=${NG:-4}
 cd /verif
-for g in 0 1 2 3; do
-  ids=$(ls seeded | awk -v g=$g '{n=substr($0,2,2)+0; if (n%4==g) print}')
+rm -f /tmp/seedregress-group?.log
+for g in $(seq 0 $((ng-1))); do
+  ids=$(ls seeded | awk -v g=$g -v ng=$ng '{n=substr($0,2,2)+0; if (n%ng==g) print}')
   ./seedregress.sh $tier $ids > /tmp/seedregress-group$g.log 2>&1 &
 done
 wait
